@@ -1133,6 +1133,17 @@ class ReversedType(_ParameterizedType):
     num_subtypes = 1
 
     @classmethod
+    def cql_parameterized_type(cls):
+        """
+        In CQL a reversed type is written as its base type (the clustering
+        order is not part of the type).
+        """
+        if not cls.subtypes:
+            return cls.typename
+        subtype, = cls.subtypes
+        return subtype.cql_parameterized_type()
+
+    @classmethod
     def deserialize_safe(cls, byts, protocol_version):
         subtype, = cls.subtypes
         return subtype.from_binary(byts, protocol_version)
